@@ -1,7 +1,9 @@
 -- Root of the MlVerif library: executable models (import-free), regenerated definitions,
 -- helper lemmas and one property file per property.  (written by harness/register.py)
 import MlVerif.Model.Proto
+import MlVerif.Properties.C01
 import MlVerif.Properties.C02
+import MlVerif.Properties.C03
 import MlVerif.Properties.C04
 import MlVerif.Properties.C05
 import MlVerif.Properties.C06
@@ -13,6 +15,7 @@ import MlVerif.Properties.C11
 import MlVerif.Properties.C12
 import MlVerif.Properties.C13
 import MlVerif.Properties.C14
+import MlVerif.Properties.C15
 import MlVerif.Properties.C16
 import MlVerif.Properties.C17
 import MlVerif.Properties.C18
